@@ -66,6 +66,7 @@ FIXED = [
     ("integer literals beyond the double range", "C04", "'\"\\u{FFFFFFFFFFFFFFFFFFFFFFFF}\"' and a 400-digit integer literal raised OverflowError; '1' + '+1' * 3000 raised RecursionError"),
     ("SyntaxErrors found by the compiler carry", "C04", "a stray break / 300 locals raised JSSyntaxError with line 0; '[' * 400 + ']' * 400 raised RecursionError while converting the result"),
     ("arrays returned by built-ins inherit", "C12", "Array.prototype.px = 1; [1].concat([2]).px was undefined (arrays made by concat/map/Object.keys had no prototype link)"),
+    ("an optional repetition of a counted quantifier", "C09", "/(?:x*?){0,2}/.exec('xx') matched '' (ECMAScript 'xx'); /(?:a\\dc\\d){0,2}(?:\\D*?){0,2}/ on '\\x01\\x00' (thorough tier, C09.rand.098)"),
     ("only canonical index strings", "C03", "[10, 20]['\\n0'] and 'abc'['0\\t'] resolved like index 0"),
     ("error objects carry null", "C03", "new Error('m').lineNumber held Python None before the error was thrown"),
 ]
